@@ -324,6 +324,7 @@ def _run(sc, choices=None):
     if sc.get("prior"):
         cfg["prior"] = dict(sc["prior"])  # the object was used before: an earlier connection was lost mid-frame / mid-message
     cfg["no_multithread"] = bool(sc.get("no_multithread"))
+    cfg["logtrace"] = bool(sc.get("logtrace"))
     out = run_recv(int(sc.get("seed", 1)), stream, cfg, res)
     ok = R.utf8_ok(p)
     trunc = (not ok) and _is_truncation(p)
@@ -417,6 +418,8 @@ def gen(rng):
         sc["prior"] = pr
     if rng.random() < 0.1:
         sc["no_multithread"] = True  # WebSocket(enable_multithread=False): the no-op lock stand-in
+    if rng.random() < 0.15:
+        sc["logtrace"] = True  # enableTrace(True): frames are formatted for the log on their way
     return sc
 
 
